@@ -35,6 +35,7 @@ Computable(m, c) ==
   /\ RIsReal(m.beta) /\ RPos(m.beta) /\ RIsReal(m.kappa) /\ RPos(m.kappa) /\ RIsReal(m.tau)
   /\ m.gamma \in {"default", "one", "zero", "big", "probe"}
   /\ AllRealLeaves(c.teams)
+  /\ DistinctObjects(c.teams)
   /\ (IsNone(c.tau) \/ IsFinite(c.tau))
   /\ (Given(c.ranks) => \A i \in 1..Len(c.ranks.items) : IsFinite(c.ranks.items[i]))
   /\ (Given(c.scores) => \A i \in 1..Len(c.scores.items) : IsFinite(c.scores.items[i]))
@@ -53,7 +54,7 @@ RateValue(c, X) ==
 
 \* predictions
 PredictComputable(m, teams) ==
-  /\ RIsReal(m.beta) /\ RPos(m.beta) /\ AllRealLeaves(teams)
+  /\ RIsReal(m.beta) /\ RPos(m.beta) /\ AllRealLeaves(teams) /\ DistinctObjects(teams)
   /\ \A i \in 1..Len(teams.items) : \A j \in 1..Len(teams.items[i].items) : ~RNegative(At(teams, i, j).sigma)
 
 WinX(m, teams)  == Win(m.beta, TeamsVals(teams))
